@@ -27,6 +27,8 @@ pub fn run_host_process<'arena>(
     configure_stdio(&mut command, spec);
 
     let mut child = command.spawn().map_err(ProcessError::SpawnFailed)?;
+    #[cfg(naijascript_verif)]
+    crate::verif::cap_event(|| format!("\"ev\":\"spawn\",\"pid\":{}", child.id()));
     let overflow = Arc::new(AtomicU8::new(0));
 
     let writer = spawn_stdin_writer(&mut child, spec.stdin);
@@ -148,15 +150,36 @@ fn read_captured_stream<R: Read>(
     let max = cap as usize;
 
     loop {
+        #[cfg(naijascript_verif)]
+        crate::verif::gate(if overflow_code == 1 { "reader.out" } else { "reader.err" });
         let n = reader.read(&mut chunk)?;
         if n == 0 {
+            #[cfg(naijascript_verif)]
+            crate::verif::cap_event(|| format!("\"ev\":\"eof\",\"s\":{overflow_code}"));
             break;
         }
         if buf.len().saturating_add(n) > max {
+            #[cfg(naijascript_verif)]
+            let _lin = crate::verif::cap_lin();
             let _ = overflow.compare_exchange(0, overflow_code, Ordering::SeqCst, Ordering::SeqCst);
+            #[cfg(naijascript_verif)]
+            crate::verif::cap_event(|| {
+                format!(
+                    "\"ev\":\"read\",\"s\":{overflow_code},\"n\":{n},\"over\":true,\"buf\":{},\"flag\":{}",
+                    buf.len(),
+                    overflow.load(Ordering::SeqCst)
+                )
+            });
             break;
         }
         buf.extend_from_slice(&chunk[..n]);
+        #[cfg(naijascript_verif)]
+        crate::verif::cap_event(|| {
+            format!(
+                "\"ev\":\"read\",\"s\":{overflow_code},\"n\":{n},\"over\":false,\"buf\":{}",
+                buf.len()
+            )
+        });
     }
 
     Ok(buf)
@@ -173,17 +196,41 @@ fn wait_for_child(
     let timeout = Duration::from_millis(u64::from(timeout_ms));
 
     loop {
+        #[cfg(naijascript_verif)]
+        crate::verif::gate("waiter.poll");
+        #[cfg(naijascript_verif)]
+        let lin = crate::verif::cap_lin();
         let overflow_code = overflow.load(Ordering::Acquire);
+        #[cfg(naijascript_verif)]
+        crate::verif::cap_event(|| format!("\"ev\":\"poll\",\"flag\":{overflow_code}"));
+        #[cfg(naijascript_verif)]
+        drop(lin);
         if overflow_code != 0 {
+            #[cfg(naijascript_verif)]
+            crate::verif::gate("waiter.kill");
             terminate_child(child);
+            #[cfg(naijascript_verif)]
+            crate::verif::cap_event(|| "\"ev\":\"kill\",\"why\":\"overflow\"".to_string());
             return Err(ProcessError::OutputLimitExceeded(stream_from_code(overflow_code)));
         }
 
+        #[cfg(naijascript_verif)]
+        crate::verif::gate("waiter.trywait");
         if let Some(status) = child.try_wait().map_err(ProcessError::SpawnFailed)? {
+            #[cfg(naijascript_verif)]
+            crate::verif::cap_event(|| "\"ev\":\"trywait\",\"exited\":true".to_string());
             return Ok(status);
         }
+        #[cfg(naijascript_verif)]
+        crate::verif::cap_event(|| "\"ev\":\"trywait\",\"exited\":false".to_string());
+        #[cfg(naijascript_verif)]
+        let timeout = crate::verif::cap_timeout(timeout);
         if start.elapsed() >= timeout {
+            #[cfg(naijascript_verif)]
+            crate::verif::gate("waiter.kill");
             terminate_child(child);
+            #[cfg(naijascript_verif)]
+            crate::verif::cap_event(|| "\"ev\":\"kill\",\"why\":\"timeout\"".to_string());
             return Err(ProcessError::Timeout);
         }
         thread::sleep(sleep_for);
@@ -217,6 +264,18 @@ fn join_capture<'arena>(
         .expect("capture reader thread should not panic")
         .map_err(ProcessError::SpawnFailed)?;
 
+    #[cfg(naijascript_verif)]
+    crate::verif::gate(if stream_code(stream) == 1 { "join.out" } else { "join.err" });
+    #[cfg(naijascript_verif)]
+    let _lin = crate::verif::cap_lin();
+    #[cfg(naijascript_verif)]
+    crate::verif::cap_event(|| {
+        format!(
+            "\"ev\":\"join\",\"s\":{},\"flag\":{}",
+            stream_code(stream),
+            overflow.load(Ordering::Acquire)
+        )
+    });
     if overflow.load(Ordering::Acquire) == stream_code(stream) {
         return Err(ProcessError::OutputLimitExceeded(stream));
     }
